@@ -5,6 +5,7 @@ package tcpx
 
 import (
 	"fmt"
+	"github.com/brewlin/net-protocol/pkg/buffer"
 	"sync"
 	"sync/atomic"
 	"time"
@@ -27,6 +28,7 @@ type FaultCfg struct {
 	MaxDelayMs int `json:"max_delay_ms"`
 	ReplayPct  int `json:"replay_pct"` // a stale copy delivered seconds later
 	Burst      int `json:"burst"`      // >0: losses come in bursts of this length
+	RefusePct  int `json:"refuse_pct"` // the sending link refuses the packet (WritePacket returns an error)
 }
 
 // DropRule drops the first Times transmissions of the packet identified by Key.
@@ -100,7 +102,9 @@ type Result struct {
 	LastWndEmitted   [2]int
 	LastWndDropped   [2]bool
 	LastWndDelivered [2]int
-	StillActive      bool // packets were still flowing shortly before the deadline (slow, not stalled)
+	StillActive      bool   // packets were still flowing shortly before the deadline (slow, not stalled)
+	Refused          [2]int // packets the sending link refused to take
+	LastWndRefused   [2]int // per data direction: window field of the last segment of the receiver that its link refused
 	// handshake bookkeeping (until the passive side has handed the connection to Accept):
 	// SYN-ACKs emitted by / delivered from the passive side; segments without SYN emitted by
 	// the active side, how many of them the fault plan dropped and how many were delivered;
@@ -397,6 +401,33 @@ func Run(sc *Scenario, frameCheck func(dir int, f *wire.Frame) string) Result {
 				a.DupDelays = append(a.DupDelays, time.Duration(500+fr.Intn(4000))*time.Millisecond)
 			}
 			return a
+		}
+	}
+	for d, h := range []*wire.Host{topo.A, topo.B} {
+		if pct := sc.Faults[d].RefusePct; pct > 0 {
+			rr := rng.Split("refuse", d)
+			var rmu sync.Mutex
+			h.L.Refuse = func(proto tcpip.NetworkProtocolNumber, hv buffer.View, pl buffer.VectorisedView) bool {
+				omu.Lock()
+				pr := probing
+				omu.Unlock()
+				rmu.Lock()
+				defer rmu.Unlock()
+				if !pr && rr.Intn(100) < pct {
+					wnd := -1
+					if t, err := DecodeTCP(proto, append(append([]byte(nil), hv...), pl.ToView()...)); err == nil && t != nil {
+						wnd = int(t.Window)
+					}
+					resMu.Lock()
+					res.Refused[d]++
+					if wnd >= 0 {
+						res.LastWndRefused[1-d] = wnd // window advertised to the sender of data direction 1-d
+					}
+					resMu.Unlock()
+					return true
+				}
+				return false
+			}
 		}
 	}
 	topo.AB.Decide = mkDecide(0)
